@@ -110,7 +110,11 @@ def check_module(m, res, d, label):
                     res['expect'].append(('lineno', inp, e, o, 'reported line differs from the line the generator wrote the prompt on'))
             # every part against the text of the file
             ignored = set(m.ignored_lines)
+            kc = cc.exotic_freeform_ids(m, style)
             for e in exs:
+                if '%s:%d' % (e.callname, e.num) in kc:
+                    c07._tag(res, 'known:K-C08-c(not compared)')
+                    continue
                 for p in e._parts:
                     if isinstance(p, str):
                         continue
@@ -153,6 +157,9 @@ def find_failing_example(m, exs, style):
 def run_failure(m, res, path, flines, style, label):
     f = m.fail
     src = m.source
+    dfail = m.docs.get(f['callname'])
+    if dfail is not None and dfail.exotic and (style == 'freeform' or not dfail.blocks):
+        return      # K-C08-c: freeform reading of a docstring with exotic line-break characters
     _, exs = cc.observe_static(path, style)
     e = find_failing_example(m, exs, style)
     inp = {'kind': 'module-failure', 'source': src, 'style': style, 'callname': f['callname'], 'fail_kind': f['kind'], 'label': label}
